@@ -34,7 +34,7 @@ MANIFEST_INFO = {
     "engine": "D",
     "design_ref": "DESIGN.md section 5, C14",
     "technique": "stateless deviation-bounded DFS over stage behaviours of generated Deferred-returning TestCases run by the real AsynchronousDeferredRunTest on the real SelectReactor under a virtual clock; timeout placement, tie order and interrupt instant enumerated; async lifecycle timeline model",
-    "level_text": "Every program whose setUp/test/tearDown/0-2 cleanups each pick one of 17 behaviours (return, raise error/failure/skip, Deferred already fired / firing or failing after 1 or 2 time units / never firing, leaving a delayed call, logging an error with or without flushing it, dropping a failed Deferred) with at most 3 (quick) / 4 (thorough) deviating stages, for 6 timeouts placed before/at/after the stage boundaries, with <=1 interrupt at any reactor instant, both runner variants and all four logging-option combinations, is executed; bracket, success-iff-clean, error on timeout/interrupt (+stop), stage sequencing by virtual timestamps, reactor cleanliness and log-observer restoration are checked on every execution.",
+    "level_text": "Every program whose setUp/test/tearDown/0-2 cleanups each pick one of 20 behaviours (return, raise error/failure/skip/SystemExit, Deferred failing with SystemExit, Deferred firing a few zero-delay reactor iterations after its due time, Deferred already fired / firing or failing after 1 or 2 time units / never firing, leaving a delayed call, logging an error with or without flushing it, dropping a failed Deferred) with at most 3 (quick) / 4 (thorough) deviating stages, for 6 timeouts placed before/at/after the stage boundaries, with <=1 interrupt at any reactor instant, both runner variants and all four logging-option combinations, is executed; bracket, success-iff-clean, error on timeout/interrupt (+stop), stage sequencing by virtual timestamps, reactor cleanliness and log-observer restoration are checked on every execution.",
     "level_note": "Virtual clock on the real SelectReactor; garbage collection of a dropped failed Deferred relies on CPython reference counting (deterministic); when the chain completes at exactly the timeout instant the verdict must follow the tie order chosen for that execution (timeout first: error; Deferred first and nothing left to wait for: success).",
 }
 
@@ -68,10 +68,15 @@ KINDS = (
     "logerr",
     "logerr_flushed",
     "drop_failed",
+    "raise_sysexit",
+    "fail1_sysexit",
+    "fire1_hops",
 )
-DELAY = {"fire1": 1.0, "fire2": 2.0, "fail1": 1.0, "fail1_falsy": 1.0}
+DELAY = {"fire1": 1.0, "fire2": 2.0, "fail1": 1.0, "fail1_falsy": 1.0, "fail1_sysexit": 1.0, "fire1_hops": 1.0}
+# exceptions that do not derive from Exception: reported as an error AND re-raised by run()
+NON_EXCEPTION = ("raise_sysexit", "fail1_sysexit")
 DIRTY_RETURN = ("junk", "junk_chain", "logerr", "drop_failed")
-FAILING = ("raise_error", "raise_failure", "raise_skip", "raise_falsy_error", "fail1_falsy", "fail1", "failed")
+FAILING = ("raise_error", "raise_failure", "raise_skip", "raise_falsy_error", "fail1_falsy", "fail1", "failed", "raise_sysexit", "fail1_sysexit")
 TIMEOUTS = (0.5, 1.0, 1.5, 2.0, 3.5, 100.0)
 
 
@@ -134,6 +139,18 @@ def behave(case, ctx, stage):
     if k == "drop_failed":
         defer.fail(StageError(stage))  # dropped at once: reference counting collects it here
         return None
+    if k == "raise_sysexit":
+        raise SystemExit(stage)
+    if k == "fail1_sysexit":
+        d = defer.Deferred()
+        r.callLater(1.0, d.errback, SystemExit(stage))
+        return d
+    if k == "fire1_hops":
+        # the Deferred fires at t+1 as well, but two reactor iterations after the call that is due
+        # then (each hop schedules the next with a zero delay)
+        d = defer.Deferred()
+        r.callLater(1.0, lambda: r.callLater(0, lambda: r.callLater(0, d.callback, stage)))
+        return d
     raise AssertionError(k)
 
 
@@ -206,7 +223,8 @@ def model(ncleanups, decisions, timeout, stage_first_at_tie=False):
                 # way the rest of the chain keeps running within that same reactor iteration until
                 # a stage has to wait again.
                 remaining_sync = all(dec.get(x, "ret") not in DELAY and dec.get(x, "ret") != "never" for x in _following(stages, st, k))
-                if not (stage_first_at_tie and remaining_sync):
+                # (a Deferred that fires some iterations after the timeout's always loses the tie)
+                if k == "fire1_hops" or not (stage_first_at_tie and remaining_sync):
                     tie_timeout = True
         if k == "logerr":
             pending_logged += 1
@@ -282,8 +300,11 @@ def execute(config, chooser):
         outs = [n for n in names if n in rec.OUTCOMES]
         stage_first = any(t[0][0] == "tie" and abs(t[0][1] - timeout) < 1e-6 and t[2] == 1 for t in chooser.trace if isinstance(t[0], tuple))
         m = model(ncleanups, ctx.decisions, timeout, stage_first_at_tie=stage_first)
-        if how[0] != "returned":
+        decided = [k for _, k in ctx.decisions]
+        if how[0] != "returned" and not (how[1] == "SystemExit" and any(k in NON_EXCEPTION for k in decided)):
             problems.append(("run-raised", "run() raised %r" % (how,)))
+        if how[0] == "returned" and "raise_sysexit" in decided and interrupt_at is None and m["timed_out"] is False:
+            problems.append(("not-propagated", "a stage raised SystemExit but run() returned normally (outcomes %r)" % (outs,)))
         core = [n for n in names if n in ("startTest", "stopTest") or n in rec.OUTCOMES]
         if len(outs) != 1 or core != ["startTest", outs[0] if outs else None, "stopTest"]:
             problems.append(("bracket", "result log %r" % (names,)))
